@@ -369,6 +369,69 @@ theorem buildCFG_ok (nodes : List Node) (g : Graph) (h : buildCFG nodes = .ok g)
           rw [this] at hj; cases hj
 
 
+
+/-! ## Successors stay inside the function (the `WF` hypothesis of C02) -/
+
+theorem hasInstr_pos : ∀ ns : List Node, hasInstr ns = true → 0 < (instrs ns).length
+  | [], h => by simp [hasInstr] at h
+  | .instr _ :: ns, _ => by simp [instrs]
+  | .label _ :: ns, h => by simp only [hasInstr] at h; simpa [instrs] using hasInstr_pos ns h
+  | .comment :: ns, h => by simp only [hasInstr] at h; simpa [instrs] using hasInstr_pos ns h
+
+theorem firstInstrAfter_lt (l : String) : ∀ (ns : List Node) (k t : Nat),
+    firstInstrAfter l k ns = some t → t < k + (instrs ns).length
+  | [], k, t, h => by simp [firstInstrAfter] at h
+  | .label l' :: ns, k, t, h => by
+    simp only [firstInstrAfter] at h
+    by_cases hl : (l' == l) = true
+    · rw [if_pos hl] at h
+      by_cases hh : hasInstr ns = true
+      · rw [if_pos hh] at h; injection h with h
+        have := hasInstr_pos ns hh
+        simp only [instrs]; omega
+      · rw [if_neg hh] at h; cases h
+    · rw [if_neg hl] at h
+      simpa [instrs] using firstInstrAfter_lt l ns k t h
+  | .instr _ :: ns, k, t, h => by
+    simp only [firstInstrAfter] at h
+    have := firstInstrAfter_lt l ns (k + 1) t h
+    simp only [instrs, List.length_cons]; omega
+  | .comment :: ns, k, t, h => by
+    simp only [firstInstrAfter] at h
+    simpa [instrs] using firstInstrAfter_lt l ns k t h
+
+/-- **C09 → C02.** Every successor recorded by the CFG pass is an instruction of
+the function: the liveness analysis' well-formedness hypothesis always holds
+after a successful `CFG`. -/
+theorem buildCFG_succ_in_range (nodes : List Node) (g : Graph) (h : buildCFG nodes = .ok g)
+    (j : Nat) (hj : j < (instrs nodes).length) (s : Nat) (hs : some s ∈ g.succ.getD j []) :
+    s < (instrs nodes).length := by
+  obtain ⟨_, _, _, hsucc, _⟩ := buildCFG_ok nodes g h
+  have := hsucc j hj
+  simp only at this
+  rw [this] at hs
+  rcases List.mem_append.mp hs with hs | hs
+  · by_cases hb : (instrs nodes)[j].isBranch = true
+    · simp only [hb, if_true] at hs
+      cases hlo : (instrs nodes)[j].labelOp with
+      | none => simp [hlo] at hs
+      | some l =>
+        simp only [hlo, Option.bind] at hs
+        cases ht : firstInstrAfter l 0 nodes with
+        | none => simp [ht] at hs
+        | some t =>
+          have hst : s = t := by simpa [ht] using hs
+          have := firstInstrAfter_lt l nodes 0 t ht
+          omega
+    · simp [hb] at hs
+  · by_cases hc : ((instrs nodes)[j].isTerminal || (instrs nodes)[j].isUncond) = true
+    · simp [hc] at hs
+    · simp only [hc] at hs
+      by_cases hn : j + 1 < (instrs nodes).length
+      · have hst : s = j + 1 := by simpa [hn] using hs
+        omega
+      · simp [hn] at hs
+
 /-- A branch whose target is not a label, or is a label not defined in the function. -/
 def badBranch (nodes : List Node) : Prop :=
   ∃ j, ∃ hj : j < (instrs nodes).length,
